@@ -1,1 +1,97 @@
-// placeholder
+//! C05 (verifier-side kernel) — the honest path proof for any terminal of a shape verifies
+//! against the specification's root, and confirm_value / confirm_nonexistence answer exactly
+//! membership for every query key below that terminal (and KeyOutOfScope for every other key).
+
+use crate::shape::*;
+use crate::symhash::*;
+use bitvec::prelude::*;
+use nomt_core::proof::{PathProof, PathProofTerminal};
+use nomt_core::trie::{KeyPath, LeafData, Node, ValueHash};
+
+/// `which`: index (left to right) of the terminal of the compressed trie of the masked set.
+pub fn honest_path_complete<U: Tree>(window: usize, mask: &[bool], which: usize) {
+    let mask = mk(mask);
+    let p = pairs::<U>(window);
+    let root = U::root::<SymHasher>(&p.keys, &p.vals, &mask);
+    let mut seen = false;
+    let mut w = Walk::new();
+    U::walk::<SymHasher, _>(&p.keys, &p.vals, &mask, &mut w, &mut |t: &Term| {
+        if t.index != which {
+            return;
+        }
+        seen = true;
+        let proof = proof_of(t, &p.keys, &p.vals);
+        // any query key in the window
+        let q = window_key(window);
+        let mut below = true;
+        let mut i = 0;
+        while i < t.depth {
+            if get_bit(&q, i) != t.path[i] {
+                below = false;
+            }
+            i += 1;
+        }
+        // the verifier may use any key below the terminal as the lookup key
+        let mut lookup = window_key(window);
+        let mut i = 0;
+        while i < t.depth {
+            set_bit(&mut lookup, i, t.path[i]);
+            i += 1;
+        }
+        let res = proof.verify::<SymHasher>(lookup.view_bits::<Msb0>(), root);
+        assert!(res.is_ok(), "honest proof rejected");
+        let v = res.unwrap();
+        let claimed: ValueHash = kani::any();
+        let truth = model_get(&p, &mask, &q);
+        let a = v.confirm_value(&LeafData {
+            key_path: q,
+            value_hash: claimed,
+        });
+        let b = v.confirm_nonexistence(&q);
+        if below {
+            assert!(matches!(a, Ok(x) if x == (truth == Some(claimed))), "confirm_value wrong");
+            assert!(matches!(b, Ok(x) if x == truth.is_none()), "confirm_nonexistence wrong");
+        } else {
+            assert!(a.is_err() && b.is_err(), "out-of-scope key answered");
+        }
+        kani::cover!(below && truth.is_none(), "absent key queried");
+        if t.leaf.is_some() {
+            kani::cover!(below && truth.is_some(), "present key queried");
+        }
+        if t.depth > 0 {
+            kani::cover!(!below, "out-of-scope key queried");
+        }
+        core::mem::forget(v);
+        core::mem::forget(proof);
+    });
+    assert!(seen);
+}
+
+macro_rules! hp {
+    ($name:ident, $t:ty, $w:expr, $mask:expr, $which:expr) => {
+        #[kani::proof]
+        pub fn $name() {
+            honest_path_complete::<$t>($w, &$mask, $which)
+        }
+    };
+}
+const T_: bool = true;
+const F_: bool = false;
+
+hp!(c05_hp_e, S0, 4, [], 0);
+hp!(c05_hp_s1, S1, 4, [T_], 0);
+hp!(c05_hp_s1_absent, S1, 4, [F_], 0);
+hp!(c05_hp_s2d0_l, S2D0, 4, [T_, T_], 0);
+hp!(c05_hp_s2d0_r, S2D0, 4, [T_, T_], 1);
+hp!(c05_hp_s2d1_00, S2D1L, 4, [T_, T_], 0);
+hp!(c05_hp_s2d1_01, S2D1L, 4, [T_, T_], 1);
+hp!(c05_hp_s2d1_1, S2D1L, 4, [T_, T_], 2);
+hp!(c05_hp_s2d2_010, S2D2, 4, [T_, T_], 1);
+hp!(c05_hp_s2d2_00, S2D2, 4, [T_, T_], 0);
+hp!(c05_hp_s2d2_1, S2D2, 4, [T_, T_], 3);
+hp!(c05_hp_s3a_0, S3A, 4, [T_, T_, T_], 0);
+hp!(c05_hp_s3a_11, S3A, 4, [T_, T_, T_], 2);
+hp!(c05_hp_s3a_compressed, S3A, 4, [T_, F_, T_], 1);
+hp!(c05_hp_s3c_000, S3C, 4, [T_, T_, T_], 0);
+hp!(c05_hp_s3c_01, S3C, 4, [T_, T_, T_], 2);
+hp!(c05_hp_s4b_001, S4B, 4, [T_, T_, T_, T_], 1);
